@@ -1176,7 +1176,11 @@ def _search_outcome(ctx, prog, plan, probe, plan_cl):
             if 'Some' in str(tv[1]):
                 some += 1
                 inner = strip(tv[2])
-                if edge != [0] or not (isinstance(inner, tuple) and inner[0] == 'agg' and 'Ok' in str(inner[1])):
+                # Some(Ok(outcome)), or Some(outcome) when the caller turns the Option into the Result afterwards
+                wrapped = isinstance(inner, tuple) and inner[0] == 'agg' and 'Ok' in str(inner[1])
+                payload = isinstance(inner, tuple) and inner[0] == 'fld' and isinstance(strip(inner[1]), tuple) and strip(inner[1])[0] == 'as' and \
+                    strip(inner[1])[2] == 'Ok' and strip(strip(inner[1])[1]) == res
+                if edge != [0] or not (wrapped or payload):
                     bad.append('Some(%s) on edge %s of the probe' % (show(inner, maxdepth=2), edge))
             elif 'None' in str(tv[1]):
                 if edge != [1]:
